@@ -81,7 +81,7 @@ type Config struct {
 	StepCap    int
 	KillAt     int   // step at which the whole process group is killed; <0: never
 	// DiskFullAt > 0: the DiskFullAt-th write that Go code (not a shell command)
-	// makes to a file below a task temp directory stores only half of the data
+	// makes to a file below a task temp directory or to an audit file stores only half of the data
 	// and fails with ENOSPC (a short write on a full disk)
 	DiskFullAt int
 	ClockTick  int64 // ns added per time.Now() reading
